@@ -41,9 +41,10 @@ META = {
                    "Gallina merge sort lists exactly the present ancestors of the tip once, its depth-0 entries are the "
                    "left-hand history numbered 1..n (the same numbers revision_id_to_revno computes), all other entries get "
                    "three-component revnos; each specifier form resolves to the revision its definition names. "
-                   "PARTIAL: the real numbering is computed by compiled vcsgraph (outside /repo); its agreement with the "
-                   "Gallina merge sort, and the distinctness of the dotted revnos it assigns, are correspondence/oracle "
-                   "facts checked on every generated history, not theorems."),
+                   "The dotted revnos the numbering rules assign are proved pairwise distinct, so the round trips hold for "
+                   "every consistent branch. PARTIAL: the real numbering is computed by compiled vcsgraph (outside /repo); "
+                   "its agreement with the Gallina merge sort is a correspondence fact checked for every tip of every "
+                   "generated history, not a theorem."),
     "level_note": ("Trusted: Coq kernel, vm_compute, the hand model's correspondence (bounded sampling), vcsgraph merge_sort/"
                    "find_unique_lca/find_lefthand_merger/iter_lefthand_ancestry as modelled (compared on every run). Only "
                    "local bzr 2a branches; RemoteBranch (breezy/bzr/remote.py) and git branches are not exercised; date:, "
@@ -54,10 +55,9 @@ META = {
                      "coq/Lib/Dag.v as a model of vcsgraph graph queries",
                      "correspondence harness harness/props/c22.py, harness/msortlib.py, harness/daglib.py"],
     "assumptions": ["vcsgraph KnownGraph.merge_sort numbers revisions like Lib/DagMergeSort.merge_sort (compared for every tip of every generated history, kind=ms)",
-                    "the dotted revnos assigned by merge_sort are pairwise distinct (checked by the oracle on every real merge-sorted list; hypothesis of C22_lookup_inverse)",
                     "vcsgraph find_unique_lca / find_lefthand_merger / find_unique_ancestors / iter_lefthand_ancestry behave like the Gallina definitions (kind=graph and every spec case)",
                     "the branch records revno = left-hand history length and has no ghost on the left-hand history of its tip (C21 keeps this)",
-                    "revision caches of the Branch object do not change answers (several questions are asked of one object per case)"],
+                    "revision caches of the Branch object do not change answers (kind=seq asks one locked object across tip changes)"],
     "rule": "num/spec/iter cases on histories containing a merge are non-trivial; distinct = distinct (input, observation)",
 }
 SHARD = 200
